@@ -38,3 +38,12 @@ def pmap(func, items, nchunks=None, procs=None):
     ctx = mp.get_context('fork')
     with ctx.Pool(procs) as pool:
         return pool.map(func, chunks, chunksize=1)
+
+
+def pmap_fresh(func, items):
+    """func(item) -> result; every item in its own freshly forked process (no state shared between items)."""
+    if not items:
+        return []
+    ctx = mp.get_context('fork')
+    with ctx.Pool(min(NPROC, len(items)), maxtasksperchild=1) as pool:
+        return pool.map(func, items, chunksize=1)
